@@ -124,7 +124,7 @@ HARNESSES = {
     "u02k_apply_n_total": {"crate": "automerge", "file": "rust/automerge/src/storage/parse.rs", "fn": "apply_n", "mode": "bounded", "bound": "every count (all usize) over a 4-byte input, element parser take1 (unwind 8: the count is bounded by the input)", "timeout_s": 900},
     "u15_try_load_total": {"crate": "automerge", "file": "rust/automerge/src/op_set2/op_set/op_iter.rs", "fn": "OpId::try_load, ObjId::try_load, ElemId::try_load", "mode": "complete",
                            "bound": "all Option<u32 actor index> x Option<i64 counter> (loop-free)"},
-    "u08_width_single_scalar": {"crate": "automerge", "file": TYPES, "fn": "TextEncoding::width", "mode": "complete",
+    "u08_width_single_scalar": {"crate": "automerge", "file": TYPES, "fn": "TextEncoding::width", "mode": "complete", "timeout_s": 3000,
                                 "bound": "every `char` as a one-scalar string, encodings UTF-8 / code point / UTF-16 (loops bounded by the 4-byte encoding); grapheme clusters not covered"},
     "u17_from_raw_string_valid": {"crate": "automerge", "file": "rust/automerge/src/op_set2/types.rs", "fn": "ScalarValue::from_raw (string arm)", "mode": "bounded",
                                   "bound": "all string values of <= 3 raw bytes, any declared metadata length"},
